@@ -1,2 +1,77 @@
+"""C17, process-backed driver: random histories on the real midicatdrv against the stand-in helper, under -race."""
+import glob
+import json
+import os
+import subprocess
+from vlib.engine import Failure, Machinery, goenv
+
+
+def _env(ctx, d):
+    hd = ctx._harness_copy()
+    bindir = os.path.join(ctx.scratch, "standin_bin")
+    if not os.path.exists(os.path.join(bindir, "midicat")):
+        os.makedirs(bindir, exist_ok=True)
+        p = subprocess.run(["go", "build", "-o", os.path.join(bindir, "midicat"), "./cmd/midicat_standin"], cwd=hd, env=goenv(), capture_output=True, text=True)
+        if p.returncode != 0:
+            raise Machinery("stand-in helper build failed: " + p.stderr)
+    e = dict(os.environ)
+    e["PATH"] = bindir + ":" + e["PATH"]
+    e["VERIF_SOCK"] = os.path.join(d, "s.sock")
+    e["VERIF_ACK"] = os.path.join(d, "ack")
+    e["GORACE"] = "log_path=%s halt_on_error=0" % os.path.join(d, "race")
+    return e
+
+
+def _collect(d, out):
+    recs = [json.loads(x) for x in open(out)] if os.path.exists(out) else []
+    race = ""
+    for f in glob.glob(os.path.join(d, "race.*")):
+        race += open(f).read()
+    return recs, race
+
+
+def _run(ctx, args, d):
+    vh = ctx.build("./cmd/vh_mcat", race=True)
+    e = _env(ctx, d)
+    p = subprocess.run([vh] + args, env=e, capture_output=True, text=True, timeout=1800)
+    if p.returncode not in (0, 66):
+        raise Machinery("vh_mcat failed rc=%s\n%s\n%s" % (p.returncode, p.stdout[-2000:], p.stderr[-4000:]))
+    return p
+
+
+def gen(ctx, seed, n, steps):
+    d = ctx.sub("mcat")
+    out = os.path.join(d, "hist.ndjson")
+    _run(ctx, ["gen", "-seed", str(seed), "-n", str(n), "-steps", str(steps), "-out", out], d)
+    recs, race = _collect(d, out)
+    return recs, race, len(recs) < n
+
+
+def rerun(ctx, i, o):
+    d = ctx.sub("mcatre")
+    _run(ctx, ["rerun", "-in", i, "-out", o], d)
+    recs, race = _collect(d, o)
+    if race and recs:
+        recs[-1]["race"] = race[:3000]
+        with open(o, "w") as f:
+            for r in recs:
+                f.write(json.dumps(r) + "\n")
+
+
 def run(ctx):
-    return []
+    from props import c17
+    q = ctx.quick
+    hists, fails = [], []
+    for s in ([ctx.seed] if q else [ctx.seed + i for i in range(4)]):
+        recs, race, short = gen(ctx, s + 700, 40 if q else 200, 30)
+        if race and recs:
+            recs[-1]["race"] = race[:3000]     # attributed to the batch; replay re-runs the last history
+        hists += recs
+    for h in hists:
+        h.setdefault("race", "")
+    fails = c17.validate(ctx, hists)
+    nsend = sum(1 for h in hists for s in h["steps"] if s["fn"] in ("Send", "SendPar"))
+    ctx.log("midicatdrv: %d histories, %d calls, %d sends, %d rejected" % (len(hists), sum(len(h["steps"]) for h in hists), nsend, len(fails)))
+    ctx.count(len(hists), [json.dumps([[s["fn"], s["m"]] for s in h["steps"]]) for h in hists if any(s["dlv"] for s in h["steps"])],
+              [{"kind": h["kind"], "steps": [[s["fn"], s["m"] if s["fn"] == "Send" else s["msgs"] if s["fn"] == "SendPar" else "", s["ret"], s["dlv"]] for s in h["steps"][:12]]} for h in hists[:2]])
+    return fails
